@@ -23,7 +23,7 @@ pub struct Built {
 
 fn hostile_world(rng: &mut Rng) -> (World, &'static str) {
     let mut w = World::default();
-    let which = rng.usize(20);
+    let which = rng.usize(25);
     let label: &'static str;
     let text: String = match which {
         0 => {
@@ -56,7 +56,7 @@ fn hostile_world(rng: &mut Rng) -> (World, &'static str) {
             label = "long-chain";
             // memory use is quadratic in the chain length (known finding); the long
             // variant deterministically exceeds the address-space limit
-            let d = if rng.chance(1, 16) { 900 + rng.usize(100) } else { 50 + rng.usize(350) };
+            let d = if rng.chance(1, 16) { 2200 + rng.usize(300) } else { 50 + rng.usize(950) };
             let mut s = String::from("pragma circom 2.0.0;\ntemplate T() {\n  signal input a;\n  signal output b;\n  b <== a");
             let ops = [" + ", " * ", " - "];
             for i in 0..d {
@@ -204,6 +204,61 @@ fn hostile_world(rng: &mut Rng) -> (World, &'static str) {
             let (link, target) = *rng.pick(&[("src/parent", ".."), ("src/self", "."), ("src/up", "../src"), ("loop", ".")]);
             w.symlinks.insert(link.to_string(), target.to_string());
             "pragma circom 2.0.0;\ntemplate T() { signal input a; }\n".to_string()
+        }
+        19 => {
+            label = "long-else-if-chain";
+            // nesting beyond roughly a thousand levels overflows the stack (known finding)
+            let n = if rng.chance(1, 10) { 1300 + rng.usize(200) } else { 50 + rng.usize(650) };
+            let mut s = String::from("pragma circom 2.0.0;\nfunction f(a) {\n  var r = 0;\n");
+            for k in 0..n {
+                s.push_str(&format!("  {}if (a == {k}) {{ r = {k}; }}\n", if k == 0 { "" } else { "else " }));
+            }
+            s.push_str("  return r;\n}\n");
+            s
+        }
+        20 => {
+            label = "many-statements";
+            // value propagation restarts after every change: time is quadratic in the number of
+            // statements (1000 statements take 4 s); sized to stay far below the CPU limit
+            let n = 100 + rng.usize(700);
+            let mut s = String::from("pragma circom 2.0.0;\ntemplate T() {\n  signal input a;\n  signal output b;\n  var x = 0;\n");
+            for k in 0..n {
+                s.push_str(&format!("  x = x + {};\n", k % 7));
+            }
+            s.push_str("  b <== a + x;\n}\n");
+            s
+        }
+        21 => {
+            label = "deep-calls-and-arrays";
+            let d = 50 + rng.usize(1500);
+            let (open, close) = if rng.chance(1, 2) { ("f(", ")") } else { ("[", "]") };
+            format!("pragma circom 2.0.0;\nfunction f(a) {{\n  var x = {}a{};\n  return 1;\n}}\n", open.repeat(d), close.repeat(d))
+        }
+        22 => {
+            label = "many-definitions";
+            let n = 100 + rng.usize(700);
+            let mut s = String::from("pragma circom 2.0.0;\n");
+            for k in 0..n {
+                s.push_str(&format!("template T{k}() {{ signal input a; signal output b; b <== a * {}; }}\n", k % 5));
+            }
+            s
+        }
+        23 => {
+            label = "nested-loops-and-branches";
+            // time grows with the fourth power of the nesting depth (120 levels take 15 s)
+            let d = 10 + rng.usize(50);
+            let mut s = String::from("pragma circom 2.0.0;\nfunction f(a) {\n  var x = a;\n");
+            for k in 0..d {
+                if k % 2 == 0 {
+                    s.push_str(&format!("  for (var i{k} = 0; i{k} < 2; i{k}++) {{\n"));
+                } else {
+                    s.push_str("  if (x > 1) {\n");
+                }
+            }
+            s.push_str("  x = x + 1;\n");
+            s.push_str(&"  }\n".repeat(d));
+            s.push_str("  return x;\n}\n");
+            s
         }
         17 => {
             label = "token-soup";
@@ -398,7 +453,7 @@ fn fingerprint(case: &Case) -> u64 {
 pub fn run(env: &Env) -> i32 {
     let t0 = Instant::now();
     let thorough = !env.quick();
-    let n = if thorough { 800_000 } else { 40_000 };
+    let n = if thorough { 800_000 } else { 30_000 };
     let n = std::env::var("VERIF_RUNS").ok().and_then(|s| s.parse().ok()).unwrap_or(n);
     let seed = env.seed;
 
